@@ -54,7 +54,7 @@ def oracle(tr, script, meta):
     cur = {"refresh": refresh, "retry": retry, "expire": expire}
     cons = rtr_common.consumed_pdus(lines, script)
     # every EOD that completed an exchange (ESTABLISHED follows): expected values by mode
-    last_sync_t = None
+    refresh_seen = []
     for c in cons:
         if "raw" not in c or not c.get("complete") or c["raw"][1] != R.EOD:
             continue
@@ -73,6 +73,7 @@ def oracle(tr, script, meta):
                     "expire": int.from_bytes(c["raw"][20:24], "big")}
             for k in cur:
                 cur[k] = prescribed(mode, sent[k], cur[k], *RANGES[k])
+            refresh_seen.append(cur["refresh"])
     fin = tr.final()
     if fin is None:
         return {"key": "no-final-dump", "what": "no final dump"}
@@ -84,16 +85,28 @@ def oracle(tr, script, meta):
         for k in got:
             if not (RANGES[k][0] <= got[k] <= RANGES[k][1]):
                 return {"key": "interval-out-of-range", "what": "interval outside its range in a mode other than accept-any", "field": k, "value": got[k]}
-    # polling: while ESTABLISHED the timeout handed to the transport never reaches beyond last sync + refresh
-    # (checked on the trace: RECV timeout=<w> right after STATE 1 must be <= the refresh interval in force)
+    # polling: every time the client (re-)enters its wait while ESTABLISHED, the timeout handed to the transport
+    # is at most the refresh interval in force (it is max(0, last_sync + refresh - now))
+    maxrefresh = max([refresh, cur["refresh"]] + refresh_seen)
+    ends = set()
+    for c in cons:
+        if "raw" in c:
+            ends.add(c.get("at_end", c["at"]))
+    state = None
+    expect_wait = False
     for i, l in enumerate(lines):
-        if l == "STATE 1":
-            for m in lines[i + 1:]:
-                if m.startswith("RECV timeout="):
-                    w = int(m.split()[1].split("=")[1])
-                    if w > max(got["refresh"], refresh, 86400 if mode == 1 else 0, cur["refresh"]) and mode != 1:
-                        return {"key": "poll-deadline", "what": "receive timeout while established exceeds the refresh interval", "timeout": w}
-                    break
+        if l.startswith("STATE "):
+            state = int(l.split()[1])
+            expect_wait = (state == 1)
+        elif l.startswith("RECV timeout="):
+            if expect_wait and state == 1:
+                w = int(l.split()[1].split("=")[1])
+                if w > maxrefresh:
+                    return {"key": "poll-deadline", "what": "while established the client asks the transport to wait longer than the refresh interval",
+                            "timeout": w, "refresh_at_most": maxrefresh, "trace_index": i}
+                expect_wait = False
+            if i in ends and state == 1:
+                expect_wait = True
     return None
 
 
